@@ -9,7 +9,7 @@ PID = 'C11'
 LEVEL = 'model_checking'
 ENGINE = 'E1+E3'
 TECHNIQUE = 'exhaustive enumeration of all pairs of (range, step, time step, extra) requests per shot on the real solver, rows matched by distance; plus all point sequences up to depth n through real record filters that differ only in recording parameters'
-RULE = ('requests = range {150,300,412.5 ft} x step {R,10,37.5,75,150,0.3 ft} x time step {0,.01,.1 s} x {plain,extra} = 108 per shot; pair cells = every '
+RULE = ('requests = range {150,300,412.5 ft} x step {R,10,37.5,75,150,0.3 ft} x time step {0,.01,.1,2e-5 s} x {plain,extra} = 144 per shot; pair cells = every '
         'unordered pair of requests of a shot (grouped in blocks), shots {multi-wind, transonic look 10, arc 30 deg, tail wind}; rows matched by '
         'distance (1e-12 rel) must agree in every column (1e-9 rel); for equal (R,s,dt) every plain row occurs in the extra result and extra-only rows carry an event flag; '
         'filter cells = advance sequences <= n over {0.75,1,1.25}u with a sight-line crossing and a Mach crossing, run through 12 filter configurations; '
@@ -25,7 +25,7 @@ SHOTS = {
     'tail': {'wind': 'tail', 'zero': 0.2},
 }
 RANGES = (150.0, 300.0, 412.5)
-TSTEPS = (0.0, 0.01, 0.1)
+TSTEPS = (0.0, 0.01, 0.1, 2e-5)     # the last one is shorter than one integration step (about 9e-5 s at the muzzle)
 NBLOCKS = 4
 
 
